@@ -108,8 +108,8 @@ def native_source(src):
 def h_template(name, src, mode):
     def h(eng):
         H = EvalHarness(eng)
-        if name in ("ListComp.2gen", "ListComp.tuple-target", "SetComp.2gen", "DictComp.2gen"):
-            H.it.ITER_BOUND = 1  # nested iteration: one element per iterable (shape bound)
+        if name in ("ListComp.2gen", "ListComp.tuple-target", "SetComp.2gen", "DictComp.2gen") or name.endswith(".if2"):
+            H.it.ITER_BOUND = 1  # nested iteration / two conditions: one element per iterable (shape bound)
         node = template(src, mode)
         U = f"C01/{name}"
         impl = H.run_impl(node)
